@@ -45,6 +45,7 @@ var profiles = map[string]profile{
 	"C04":   {name: "C04", wIndex: 4, wFilter: 12, wBulk: 3, wRollback: 1, maxSteps: 26},
 	"C06":   {name: "C06", wIndex: 2, wReplica: 8, wKey: 1, wSort: 1, wBulk: 2, wRollback: 1, maxSteps: 30},
 	"C07":   {name: "C07", wIndex: 2, wSnapshot: 8, wKey: 1, wSort: 1, wBulk: 3, wRollback: 1, maxSteps: 30},
+	"C08":   {name: "C08", wIndex: 2, wSnapshot: 10, wKey: 1, wBulk: 2, wRollback: 1, maxSteps: 24},
 	"C09":   {name: "C09", wBulk: 3, wReplica: 1, wSnapshot: 1, wRollback: 1, wFilter: 1, maxSteps: 34},
 	"C11":   {name: "C11", wBulk: 6, wRollback: 1, wFilter: 1, maxSteps: 40},
 	"C12":   {name: "C12", wKey: 100, wRollback: 2, wIndex: 1, wSnapshot: 1, wReplica: 1, maxSteps: 30},
@@ -416,7 +417,9 @@ func (g *gen) setup() {
 		}
 	}
 	// snapshot / replica profiles: one column of every kind that has its own Snapshot code
-	if g.p.name == "C07" || g.p.name == "C06" {
+	if g.p.name == "C07" || g.p.name == "C06" || g.p.name == "C08" {
+		g.addCol(genCol{"kf", "float32", ""})
+		g.addCol(genCol{"ku", "uint16", ""})
 		g.addCol(genCol{"ke", "enum", ""})
 		g.addCol(genCol{"kb", "bool", ""})
 		g.addCol(genCol{"kr", "record", ""})
@@ -462,7 +465,7 @@ func (g *gen) setup() {
 		g.feat("deadline-column")
 	}
 	// cheap multi-chunk population: rows around the 16K-chunk edges, inserted through Replay
-	allKinds := g.p.name == "C07" || g.p.name == "C06"
+	allKinds := g.p.name == "C07" || g.p.name == "C06" || g.p.name == "C08"
 	if r.Intn(3) == 0 || (g.p.name == "C17" && r.Intn(3) > 0) || (g.p.wKey >= 100 && r.Intn(4) > 0) || (allKinds && r.Intn(4) > 0) || (g.p.name == "C02" && r.Intn(4) > 0) || (g.p.name == "C16" && r.Intn(3) > 0) {
 		pool := []uint32{5, 63, 64, 16383, 16384, 16385, 16390, 20000, 32767, 32768, 32769, 40000}
 		var offs []string
@@ -518,7 +521,7 @@ func (g *gen) setup() {
 				tid := fmt.Sprintf("v%d", g.nTxn)
 				g.emit("p begin " + tid)
 				for i, o := range offs {
-					g.emit(fmt.Sprintf("p %s at %s set:ke:%s bool:kb:%d set:kr:%s set:ks:%s set:kn:%08x set:k16:%04x", tid, o, g.enumValue(), i%2, g.recValue(), g.strValue(false), uint32(i+1), uint16(100+i)))
+					g.emit(fmt.Sprintf("p %s at %s set:ke:%s bool:kb:%d set:kr:%s set:ks:%s set:kn:%08x set:k16:%04x set:kf:%08x set:ku:%04x", tid, o, g.enumValue(), i%2, g.recValue(), g.strValue(false), uint32(i+1), uint16(100+i), math.Float32bits(float32(i)+2), uint16(7+i)))
 				}
 				g.emit("p commit " + tid)
 				g.feat("all-kinds-far-rows")
@@ -1322,7 +1325,7 @@ func (g *gen) dumpAll() {
 func (g *gen) snapshotCycle() {
 	g.syncLive(g.emit("p dump"))
 	g.emit("p statehash") // byte-exact tie of writeState (ids by rank)
-	if g.r.Intn(3) == 0 && len(g.live) > 0 && len(g.cols) > 0 {
+	if (g.r.Intn(3) == 0 || (g.p.name == "C08" && g.r.Intn(5) > 0)) && len(g.live) > 0 && len(g.cols) > 0 {
 		// a transaction commits while the snapshot is in progress (after the chunk states were written): it is in the
 		// recorded log of the file and Restore replays it — in every chunk, for every width and kind
 		g.nTxn++
@@ -1330,7 +1333,19 @@ func (g *gen) snapshotCycle() {
 		g.txnRes, g.txnSet = map[string]bool{}, map[string]bool{}
 		g.emit("p begin " + tid)
 		n := 1 + g.r.Intn(4)
+		markersOnly := g.r.Intn(3) == 0
 		for i := 0; i < n; i++ {
+			if markersOnly {
+				// a transaction of row markers only (deletes, inserts with an empty callback): no column is written
+				if off, ok := g.pickLive(); ok && g.r.Intn(2) == 0 && !g.txnSet[fmt.Sprintf("del|%d", off)] {
+					g.txnSet[fmt.Sprintf("del|%d", off)] = true
+					g.emit(fmt.Sprintf("p %s del %d", tid, off))
+				} else {
+					g.emit(fmt.Sprintf("p %s insert", tid))
+				}
+				g.feat("snapshot-with-marker-only-commit")
+				continue
+			}
 			if off, ok := g.pickLive(); ok {
 				if a := g.actionsAt(off, 1+g.r.Intn(2)); a != "" {
 					g.emit(strings.TrimRight(fmt.Sprintf("p %s at %d %s", tid, off, a), " "))
@@ -1339,7 +1354,10 @@ func (g *gen) snapshotCycle() {
 		}
 		// every numeric width merges through its own Swap function: the 16- and 32-bit columns of the all-kinds
 		// schema get a merge on a row that holds a value (beyond the first chunk when there is one)
-		for _, cn := range []string{"k16", "kn"} {
+		for _, cn := range []string{"k16", "kn", "kf", "ku"} {
+			if markersOnly {
+				break
+			}
 			var cand []uint32
 			for _, o := range g.liveList() {
 				if g.hasVal[o][cn] && !g.txnSet[fmt.Sprintf("%d|%s", o, cn)] {
@@ -1348,7 +1366,7 @@ func (g *gen) snapshotCycle() {
 			}
 			if len(cand) > 0 {
 				o := cand[len(cand)-1]
-				w := map[string]string{"k16": "0003", "kn": "00000005"}[cn]
+				w := map[string]string{"k16": "0003", "kn": "00000005", "kf": "3fc00000", "ku": "0009"}[cn] // kf: +1.5
 				g.emit(fmt.Sprintf("p %s at %d merge:%s:%s", tid, o, cn, w))
 			}
 		}
